@@ -139,7 +139,14 @@ func vExecStep(s *drv.Server, bucket string, m *model.VersionModel, st vstep, st
 		body := []byte(fmt.Sprintf("h%d-s%d-%s-", hist, stepNo, st.Key))
 		body = append(body, bytes.Repeat([]byte{byte('a' + stepNo%26)}, stepNo%7)...)
 		meta := map[string]string{"X-Amz-Meta-Ver": fmt.Sprintf("h%d-s%d", hist, stepNo), "Content-Type": fmt.Sprintf("text/x-step-%d", stepNo)}
-		resp := s.Put(bucket, st.Key, body, drv.H("x-amz-meta-ver", meta["X-Amz-Meta-Ver"], "Content-Type", meta["Content-Type"]))
+		hdr := drv.H("x-amz-meta-ver", meta["X-Amz-Meta-Ver"], "Content-Type", meta["Content-Type"])
+		if stepNo%2 == 0 {
+			// stored and echoed like every x-amz-* header of an upload; a copy of the key does not
+			// take it along, and must leave it with the version it belongs to
+			meta["X-Amz-Acl"] = "public-read"
+			hdr.Set("x-amz-acl", "public-read")
+		}
+		resp := s.Put(bucket, st.Key, body, hdr)
 		if resp.Panic != nil {
 			return fail("panic", fmt.Sprintf("put panicked: %v", resp.Panic))
 		}
